@@ -790,6 +790,15 @@ pub(super) fn bl(
         // get operands
         let dst = operand_load(block, &instruction.operands()[0], 64)?;
 
+        // `blr x30`: the target is read before the link register is written
+        let dst = if dst.all_constants() {
+            dst
+        } else {
+            let temp = temp0(instruction, 64);
+            block.assign(temp.clone(), dst);
+            il::Expression::Scalar(temp)
+        };
+
         block.assign(
             scalar!("x30"),
             il::expr_const(instruction.address().wrapping_add(4), 64),
